@@ -137,8 +137,25 @@ class _Subst(ast.NodeTransformer):
     visit_ListComp = visit_GeneratorExp = visit_SetComp = visit_DictComp = _comp
 
 
+IMPURE_BUILTINS = ("next",)
+
+
+class _TagImpure(ast.NodeTransformer):
+    """Calls are otherwise identified by their text (two sites with the same text denote the same
+    value).  That is wrong for stateful builtins such as next(gen): tag each such call with its
+    source position so that different sites stay different values."""
+
+    def visit_Call(self, node: ast.Call):
+        self.generic_visit(node)
+        if isinstance(node.func, ast.Name) and node.func.id in IMPURE_BUILTINS and hasattr(node, "lineno") \
+                and not any(isinstance(a, ast.Constant) and isinstance(a.value, str) and a.value.startswith("@site") for a in node.args):
+            node.args = list(node.args) + [ast.Constant(value=f"@site{node.lineno}:{node.col_offset}")]
+        return node
+
+
 def resolve(expr: ast.AST, env: Dict[str, ast.AST]) -> ast.AST:
-    return ast.fix_missing_locations(_Subst(env).visit(copy.deepcopy(expr)))
+    e = _TagImpure().visit(copy.deepcopy(expr))
+    return ast.fix_missing_locations(_Subst(env).visit(e))
 
 
 def mk_call(name: str, args: List[ast.AST]) -> ast.Call:
